@@ -163,6 +163,51 @@ theorem decisionFlags_nil_iff (c : Cfg) (name : Text) (got : Pkg) (gotSum : Text
   · simp [h]
   · by_cases h2 : got.origin = [] ∨ want.origin = [] <;> simp [h, h2]
 
+/-- the decision flags are exactly the two listed classes: a decision of the code that is not the rule
+table's has an empty origin on one side (F07b) or a replaces entry that is not a plain name (F07h: a
+version constraint, a pin, an `so:` name) — there is no third way to leave the table -/
+theorem decision_deviation_classified (c : Cfg) (got : Pkg) (gotSum : Text) (want : Pkg) (wantSum : Text)
+    (h : decideOwned { c with spec := false } got gotSum want wantSum ≠ decideSpec got gotSum want wantSum) :
+    (got.origin = [] ∨ want.origin = []) ∨ ¬ PlainReplaces got.replaces ∨ ¬ PlainReplaces want.replaces := by
+  by_cases ho : got.origin = [] ∨ want.origin = []
+  · exact Or.inl ho
+  · right
+    by_cases hg : PlainReplaces got.replaces
+    · by_cases hw : PlainReplaces want.replaces
+      · exact absurd (decision_table _ got gotSum want wantSum hg hw (fun h0 => ho (Or.inr h0))) h
+      · exact Or.inr hw
+    · exact Or.inl hg
+
+/-- …and the flag names the class -/
+theorem versioned_flag_nonplain (c : Cfg) (name : Text) (got : Pkg) (gotSum : Text) (want : Pkg) (wantSum : Text)
+    (h : decisionFlags c name got gotSum want wantSum = [.versioned name]) :
+    got.origin ≠ [] ∧ want.origin ≠ [] ∧ (¬ PlainReplaces got.replaces ∨ ¬ PlainReplaces want.replaces) := by
+  unfold decisionFlags at h
+  split at h
+  · cases h
+  · rename_i hne
+    split at h
+    · cases h
+    · rename_i ho
+      have ho2 : got.origin ≠ [] ∧ want.origin ≠ [] := by
+        constructor
+        · exact fun h0 => ho (Or.inl h0)
+        · exact fun h0 => ho (Or.inr h0)
+      refine ⟨ho2.1, ho2.2, ?_⟩
+      rcases decision_deviation_classified c got gotSum want wantSum hne with h1 | h1
+      · exact absurd h1 ho
+      · exact h1
+
+theorem emptyOrigin_flag_origin (c : Cfg) (name : Text) (got : Pkg) (gotSum : Text) (want : Pkg) (wantSum : Text)
+    (h : decisionFlags c name got gotSum want wantSum = [.emptyOrigin name]) :
+    got.origin = [] ∨ want.origin = [] := by
+  unfold decisionFlags at h
+  split at h
+  · cases h
+  · split at h
+    · assumption
+    · cases h
+
 /-! ## the decision is the one of the node-graph model of tarfs (`Model/FS.lean`, validated op by op
 against the real tarfs by `corr:fs`) -/
 
@@ -258,11 +303,13 @@ def owner_invariant : Prop :=
 raised only flags of the classes F07b (`emptyOrigin`), F07h (`versioned`) and F07i (`baseKept`) still ends
 in a state where every name `installedFiles` knows is a regular file in the tree with the recorded
 owner's content: a decision that differs from the rule table writes tree and map together, a kept base
-file writes neither.  The three remaining classes are exactly the holes: `owner_invariant_fails` (F07c,
+file writes neither.  Nothing is assumed about how header names are spelled (only that a file or link
+name has a component, `WFn`): a name that is not a clean path raises the `alias` flag (F07g).  The three
+remaining classes are exactly the holes: `owner_invariant_fails` (F07c,
 `linkUntracked`), `owner_invariant_fails_throughLink` (F07d), `owner_invariant_fails_alias` (F07g) are
 runs whose only flag is that one and on which the invariant is false. -/
 theorem owner_invariant_flags (c : Cfg) (hc : c.spec = false) (base : List Entry) (pkgs : List Pkg)
-    (st : St) (all : List (List Entry)) (hwf : ∀ p ∈ pkgs, ∀ e ∈ p.entries, WF e)
+    (st : St) (all : List (List Entry)) (hwf : ∀ p ∈ pkgs, ∀ e ∈ p.entries, WFn e)
     (h : installAll c base pkgs = .ok (st, all)) (hfl : Benign st.flags) : OwnerInv st := by
   unfold installAll at h
   obtain ⟨x, hx, hI⟩ := installFrom_inv c hc pkgs pkgs 0 _ _ st all h hwf
@@ -279,7 +326,7 @@ name `installedFiles` knows is a regular file in the tree whose content is the r
 theorem owner_invariant_partial (c : Cfg) (hc : c.spec = false) (base : List Entry) (pkgs : List Pkg)
     (st : St) (all : List (List Entry)) (hwf : ∀ p ∈ pkgs, ∀ e ∈ p.entries, WF e)
     (h : installAll c base pkgs = .ok (st, all)) (hfl : st.flags = []) : OwnerInv st :=
-  owner_invariant_flags c hc base pkgs st all hwf h (hfl ▸ Benign_nil)
+  owner_invariant_flags c hc base pkgs st all (fun p hp e he => (hwf p hp e he).toWFn) h (hfl ▸ Benign_nil)
 
 /-- **no_silent_overwrite** (partial): one header of a flag-free Impl step changes what is stored at
 a path only at the header's own path, and only by creating the entry or through a logged decision:
@@ -288,9 +335,9 @@ theorem no_silent_overwrite_partial (c : Cfg) (hc : c.spec = false) (pkgs : List
     (st st' : St) (b : Bool) (h : stepEntry c pkgs i e st = .ok (st', b)) (hwf : WF e)
     (hfl : st'.flags = st.flags) (q : PathK) (n : Node) (hq : lookupT st.tree q = some n)
     (hne : q ≠ parts e.name) : lookupT st'.tree q = some n := by
-  obtain ⟨x, hx, hs⟩ := stepEntry_shape c hc pkgs i e st st' b h hwf
+  obtain ⟨x, hx, hs⟩ := stepEntry_shape c hc pkgs i e st st' b h hwf.toWFn
   have hx0 : x = [] := append_eq_self _ _ (hfl ▸ hx).symm
-  cases hs (hx0 ▸ Benign_nil) with
+  cases (hs (hx0 ▸ Benign_nil)).1 with
   | same ht _ => rw [ht]; exact hq
   | grow _ ht => exact ht q n hq
   | wrote _ _ t0 h0 ht => rw [ht, lookupT_setT_ne _ _ _ _ hne, h0 q hne]; exact hq
@@ -329,7 +376,7 @@ the owner only (`i = j`), and the tree holds, at that path, exactly the node wri
 `e.sum` (the `Z:` line), permission bits `e.mode % 512` (the `a:` line).  The owner (uid/gid) of the
 node is NOT the recorded one: `recorded_owner_iff`, `recorded_owner_fails` (F07e). -/
 theorem recorded_file_truth (c : Cfg) (hc : c.spec = false) (base : List Entry) (pkgs : List Pkg)
-    (st : St) (all : List (List Entry)) (hwf : ∀ p ∈ pkgs, ∀ e ∈ p.entries, WF e)
+    (st : St) (all : List (List Entry)) (hwf : ∀ p ∈ pkgs, ∀ e ∈ p.entries, WFn e)
     (huniq : ∀ p ∈ pkgs, UniqueRegNames p)
     (h : installAll c base pkgs = .ok (st, all)) (hfl : Benign st.flags)
     (i j : Nat) (rec : List Entry) (e : Entry)
@@ -414,6 +461,26 @@ def dirModeLie (r : Except (Outcome × List Flag) (St × List (List Entry))) : B
 
 /-- **F07f**, kernel-checked on every backend: `var` keeps 0755, `b` records `M:0:0:0700` -/
 theorem recorded_dir_mode_fails (b : Backend) : dirModeLie (installAll { backend := b } [] witnessF) = true := by
+  cases b <;> decide
+
+/-- F07i: a file written through the FS API before the install, shipped with the same content by two packages -/
+def baseI : List Entry := [{ name := "etc".toList, kind := .dir, mode := 0o755 }, { name := "etc/k".toList, kind := .reg, sum := ['1'] }]
+def witnessI : List Pkg :=
+  [{ name := ['a'], origin := "oa".toList, entries := [{ name := "etc/".toList, kind := .dir, mode := 0o755 }, { name := "etc/k".toList, kind := .reg, sum := ['1'] }] },
+   { name := ['b'], origin := "ob".toList, entries := [{ name := "etc/".toList, kind := .dir, mode := 0o755 }, { name := "etc/k".toList, kind := .reg, sum := ['1'] }] }]
+
+def multiRecorded (r : Except (Outcome × List Flag) (St × List (List Entry))) : Bool :=
+  match r with
+  | .ok (st, all) =>
+    decide (st.flags = [.baseKept "etc/k".toList, .baseKept "etc/k".toList]) && decide (st.inst = []) &&
+    decide (((recordAll st.inst all).filter fun rec => rec.any fun e => e.kind == .reg && e.name == "etc/k".toList).length = 2)
+  | .error _ => false
+
+/-- **F07i**, kernel-checked on every backend: the file is kept twice (flag `baseKept` twice, nothing
+else), nobody becomes its owner (`installedFiles` stays empty — outside the hypothesis of `idb_unique`),
+nothing is pruned: both packages record the one regular file.  The side condition under which a name is
+recorded once is `idb_unique`'s: `installedFiles` knows the name. -/
+theorem multi_recorder_baseKept (b : Backend) : multiRecorded (installAll { backend := b } baseI witnessI) = true := by
   cases b <;> decide
 
 /-! ## impl_refines_spec: without a ghost flag the code does what the rule table says -/
@@ -585,6 +652,23 @@ theorem owner_invariant_fails_alias :
     ∃ st all, installAll { backend := .lazy } [] witnessG = .ok (st, all) ∧
       st.flags = [.alias "l64/x".toList] ∧ ¬ OwnerInv st :=
   failsWith_spec (by decide)
+
+/-- F07g, second form: `b` spells the path of `a`'s file `s/f` as `s//f` -/
+def witnessU : List Pkg :=
+  [{ name := ['a'], origin := ['o'], entries := [{ name := ['s', '/'], kind := .dir, mode := 0o755 }, { name := ['s', '/', 'f'], kind := .reg, sum := ['1'] }] },
+   { name := ['b'], origin := ['o'], entries := [{ name := ['s', '/'], kind := .dir, mode := 0o755 }, { name := ['s', '/', '/', 'f'], kind := .reg, sum := ['2'] }] }]
+
+/-- why `owner_invariant_partial` asked for clean names, as a run: tarfs overwrites the node `s/f`,
+`installedFiles` holds the two spellings `s/f ↦ a` and `s//f ↦ b`; the model raises `alias s//f` (replayed on
+the real code: corpus/conflict/F07g-unclean.json — both packages record `s/f`) -/
+theorem owner_invariant_fails_unclean :
+    ∃ st all, installAll { backend := .lazy } [] witnessU = .ok (st, all) ∧
+      st.flags = [.alias ['s', '/', '/', 'f']] ∧ ¬ OwnerInv st :=
+  failsWith_spec (by decide)
+
+instance (e : Entry) : Decidable (WFn e) := by unfold WFn; infer_instance
+
+example : ∀ p ∈ witnessU, ∀ e ∈ p.entries, WFn e := by decide
 
 /-- F07c restated in the same form: the only flag of the run is `linkUntracked s/f` -/
 theorem owner_invariant_fails_linkUntracked :
